@@ -174,7 +174,7 @@ class DSDLTemplateLoader(BaseLoader):
         files = set()
         if self._fsloader is not None:
             for template_dir in self._fsloader.searchpath:
-                for template in filter(_is_template_resource, pathlib.Path(str(template_dir)).glob("**/*")):
+                for template in filter(_is_template_resource, _walk_template_files(str(template_dir))):
                     files.add(template)
         if self._package_loader is not None:
             templates_module = importlib.import_module(self._templates_package_name)
@@ -272,7 +272,30 @@ class DSDLTemplateLoader(BaseLoader):
 
 def _is_template_resource(path: pathlib.Path) -> bool:
     """
-    True for files a template can load through the loaders: any regular file except the Python files (and caches)
-    that make the templates directory a package.
+    True for files a template can load through the loaders: any regular file (a template may ``include`` a resource with
+    any suffix, also ``.py``) except what makes the templates directory a Python package: ``__init__.py`` and byte code.
     """
-    return path.is_file() and path.suffix not in (".py", ".pyc", ".pyo") and "__pycache__" not in path.parts
+    return (
+        path.is_file()
+        and path.name != "__init__.py"
+        and path.suffix not in (".pyc", ".pyo")
+        and "__pycache__" not in path.parts
+    )
+
+
+def _walk_template_files(template_dir: str) -> typing.Iterator[pathlib.Path]:
+    """
+    Every file below a templates directory the file-system loader can serve. The loader opens ``<dir>/<name>`` whatever
+    the name passes through, so directories that are symbolic links are followed (each real directory once).
+    """
+    import os  # pylint: disable=import-outside-toplevel
+
+    visited = set()  # type: typing.Set[str]
+    for dirpath, dirnames, filenames in os.walk(template_dir, followlinks=True):
+        real_dirpath = os.path.realpath(dirpath)
+        if real_dirpath in visited:
+            dirnames[:] = []
+            continue
+        visited.add(real_dirpath)
+        for filename in filenames:
+            yield pathlib.Path(dirpath) / filename
